@@ -333,6 +333,11 @@ func (p *player) Bet(chips int64) error {
 		return ErrInvalidAction
 	}
 
+	// A negative bet would take chips back from the table
+	if chips < 0 {
+		return ErrInvalidAction
+	}
+
 	//fmt.Printf("[Player %d] bet %d\n", p.idx, chips)
 
 	p.state.DidAction = "bet"
